@@ -258,7 +258,7 @@ func (p *Pair) Check(traces []Trace, keepDir string) Verdict {
 	}
 	ctx, cancel := context.WithDeadline(context.Background(), limit)
 	defer cancel()
-	cmd := exec.CommandContext(ctx, "java", "-XX:+UseSerialGC", "-Xmx3g", "-Xss16m", "-Djava.io.tmpdir="+dir, "-cp", tlcx.Jar, "tlc2.TLC",
+	cmd := exec.CommandContext(ctx, "java", "-XX:+UseSerialGC", "-Xmx3g", "-Xss16m", "-Djava.io.tmpdir="+dir, "-Duser.home="+dir, "-cp", tlcx.Jar, "tlc2.TLC",
 		"-workers", "1", "-deadlock", "-nowarning", "-metadir", filepath.Join(dir, "states"), "-config", name+".cfg", name+".tla")
 	cmd.Dir = dir
 	var out bytes.Buffer
